@@ -190,7 +190,7 @@ class ResourceManager:
             return dir, xdr
 
         def resolve(resource, dir, xdr, path, attrs):
-            for attr_key, attr_value in attrs.items():
+            for attr_key, attr_value in list(attrs.items()):
                 if hasattr(attr_value, "__call__"):
                     attr_value = attr_value(self)
                     assert attr_value is None or isinstance(attr_value, str)
